@@ -471,7 +471,7 @@ func genLineFormat(r *rand.Rand) (string, []string) {
 	}
 	tk := r.Intn(9)
 	tmpl := []string{
-		"zzz",
+		pick(r, []string{"zzz", "done {x}"}),
 		"{{." + L + "}}",
 		"{{." + L + "}}: done {x}",
 		"lvl={{." + L + "}} st={{." + M + "}}",
@@ -960,7 +960,10 @@ func reach(qi *qinfo, db DB) (lines []string, vals []string) {
 					}
 				}
 			case "line_format":
-				tpl, err := template.New("t").Parse(st.tmpl)
+				// missingkey=zero: a label the stream lacks prints "" (what Loki and the in-process engine of /repo do -
+			// internal_planner/planner_line_format.go - and what labels['x'] gives in ClickHouse); the default of
+			// text/template would print "<no value>"
+			tpl, err := template.New("t").Option("missingkey=zero").Parse(st.tmpl)
 				if err != nil {
 					continue
 				}
